@@ -1292,7 +1292,9 @@ def r_hilbert_call(ctx):
             av = affine(v)
             hterm = [k for k in av[1] if _strip_cast(k) == unmut(hc[0].d["ret"]) or k == unmut(hc[0].d["ret"])]
             base = [k for k in av[1] if k not in hterm]
-            ok_base = av[0] == 1 and len(hterm) == 1 and av[1][hterm[0]] == 1 and len(base) == 1 and av[1][base[0]] == 1 and _is_pow4_sum(base[0], P.get("z"))
+            # 1 + Σ_{1≤i<z} 4^i  =  Σ_{0≤i<z} 4^i
+            ok_base = len(hterm) == 1 and av[1][hterm[0]] == 1 and len(base) == 1 and av[1][base[0]] == 1 and \
+                ((av[0] == 1 and _is_pow4_sum(base[0], P.get("z"))) or (av[0] == 0 and _is_pow4_sum(base[0], P.get("z"), 0)))
             obs.append(Ob("R-HILBERT-CALL", f["path"], "id = 1 + Σ_{1≤i<z} 4^i + position", ok_base, "returns %s" % aff_str(av)[:160], rel(f["loc"])))
             nc = absint.narrowing_casts(v)
             obs.append(Ob("R-HILBERT-CALL", f["path"], "the id is not truncated on the way out", not nc, ("narrowing cast(s): %s" % ", ".join("%s as %s" % (c[3], c[1]) for c in nc)) if nc else "no narrowing cast in the returned id", hc[0].loc()))
@@ -1317,7 +1319,8 @@ def r_hilbert_call(ctx):
             z = _strip_cast(a[1])
             ha = affine(_strip_cast(a[0]))
             base = [k for k in ha[1] if k != tid]
-            ok_h = ha[0] == -1 and ha[1].get(tid) == 1 and len(base) == 1 and ha[1][base[0]] == -1 and _is_pow4_sum(base[0], z) and is_call_to(a[2], lambda s: s.endswith("Variant::Hilbert"))
+            ok_h = ha[1].get(tid) == 1 and len(base) == 1 and ha[1][base[0]] == -1 and is_call_to(a[2], lambda s: s.endswith("Variant::Hilbert")) and \
+                ((ha[0] == -1 and _is_pow4_sum(base[0], z)) or (ha[0] == 0 and _is_pow4_sum(base[0], z, 0)))
             obs.append(Ob("R-HILBERT-CALL", f["path"], "position = id − (1 + Σ_{1≤i<z} 4^i), decoded with h2xy_discrete(_, z, Hilbert)", ok_h, "first argument %s" % aff_str(ha)[:140], hc[0].loc()))
             r = unmut(hc[0].d["ret"])
             ok_t = tup is not None and tup[0] == "tup" and len(tup[1]) == 3 and tup[1][0] == z and _strip_cast(tup[1][1]) == ("proj", r, 0) and _strip_cast(tup[1][2]) == ("proj", r, 1) and z[0] == "call"
@@ -1331,15 +1334,15 @@ def _is_eq0(c, what, outcome):
     return c[0] == "bin" and c[1] == "==" and {c[2], c[3]} == {what, C(0)} and outcome is True
 
 
-def _is_pow4_sum(t, z):
-    """sum(map(1..z, |i| 4^i))"""
+def _is_pow4_sum(t, z, start=1):
+    """sum(map(start..z, |i| 4^i))"""
     if not is_call_to(t, lambda s: s.endswith("::sum")):
         return False
     m = t[2][0]
     if not is_call_to(m, lambda s: s.endswith("::map")) or len(m[2]) != 2:
         return False
     rng, clos = m[2]
-    if not (rng[0] == "struct" and rng[1] == "core::ops::range::Range" and struct_field(rng, "start") == C(1) and _strip_cast(struct_field(rng, "end")) == z):
+    if not (rng[0] == "struct" and rng[1] == "core::ops::range::Range" and struct_field(rng, "start") == C(start) and _strip_cast(struct_field(rng, "end")) == z):
         return False
     if clos[0] == "call" and clos[3] is None and not clos[2] and _CTX is not None and _CTX.fn(clos[1]) is not None:
         # a function item used as the mapper: it must itself be `|i| 4^i`
